@@ -74,7 +74,7 @@ static int determinism_pair(Engine *e, const char *prop, uint64_t n, uint64_t &r
 
 static int determinism(uint64_t n) {
 	static const struct { const char *engine, *prop; unsigned div = 1; } pairs[] = {
-		{"async", "C13"}, {"async", "C14"}, {"async", "C06"}, {"ha", "C15"}, {"world", "C07"}, {"world", "C08"}, {"world", "C06", 25}, {"world", "C14"},
+		{"async", "C13"}, {"async", "C14"}, {"async", "C06"}, {"async", "C07"}, {"async", "C08"}, {"trust", "C11", 4}, {"ha", "C15"}, {"world", "C07"}, {"world", "C08"}, {"world", "C06", 25}, {"world", "C14"},
 		{"alloc", "C19"}, {"history", "C11"}, {"history", "C16"}, {"trust", "C04", 4}};
 	std::vector<pid_t> kids;
 	fflush(stdout);
